@@ -6,12 +6,12 @@ import (
 	"pgregory.net/rapid"
 )
 
-var knobsFaultFree = Knobs{MinInst: 1, MaxInst: 5, LatFrac: 0.2499, WatchDelayH: 4, Stops: true, StopPhases: true, Promote: true, DemoteDur: true, LongH: true, NewObjects: true}
+var knobsFaultFree = Knobs{MinInst: 1, MaxInst: 5, LatFrac: 0.2499, WatchDelayH: 4, Stops: true, StopPhases: true, Promote: true, DemoteDur: true, LongH: true, NewObjects: true, TakeoverTies: true}
 
 func TestC02(t *testing.T) {
 	RunCheck(t, CheckSpec{
 		Prop: "C02",
-		Rule: "fault-free plans (1-5 instances, (H,TTL) lattice, per-direction latencies < H/4 biased to the edges, watch delays up to 4H, start/Stop/StopWithContext(all options)/restart/new-object actions at generated times and at phases of in-flight store operations, blocking promote callbacks); oracle: <=1 claimant at every flag change and every claim interval covered by the claimant's own live record with its token. Non-trivial = (>=2 instances and >=2 terms) or a stop placed inside an in-flight store operation; distinct by plan hash.",
+		Rule: "fault-free plans (1-5 instances, (H,TTL) lattice, per-direction latencies < H/4 biased to the edges, watch delays up to 4H, start/Stop/StopWithContext(all options)/restart/new-object actions at generated times and at phases of in-flight store operations, blocking promote callbacks, in half of the plans one common priority with takeover enabled for most instances); oracle: <=1 claimant at every flag change and every claim interval covered by the claimant's own live record with its token. Non-trivial = (>=2 instances and >=2 terms) or a stop placed inside an in-flight store operation; distinct by plan hash.",
 		Gen: MixShapes(func(t *rapid.T) *Plan { return GenPlan(t, "faultfree", knobsFaultFree) },
 			func(t *rapid.T) *Plan { return GenRestartInFlightPlan(t, "faultfree") }),
 		Oracle: OracleC02,
